@@ -335,7 +335,7 @@ def judge_exits(acc, tap, H, results, kinds_inside, trace, ident, outcome, rec, 
             inside_ops = set(kinds_inside)
             if how == "dropped" and inside_ops & {"manipulation.rename_genes", "model.repair"}:
                 pass  # rename_genes -> Model.repair() rebuilds back references from the model's reactions only
-            elif how == "added" and kinds_obj == ["gene"] and inside_ops & {"manipulation.remove_genes", "model.add_reactions", "model.merge"}:
+            elif how == "added" and kinds_obj == ["gene"] and inside_ops & {"manipulation.remove_genes", "model.add_reactions", "model.merge"} and _gained_refs_are_stale(H, diffs):
                 # a reaction (re-)joins the model inside the block and leaves it again on
                 # exit, but an undo entry of the gene bookkeeping (remove_genes, or
                 # update_genes_from_gpr dissociating the genes the reaction object still
@@ -391,6 +391,26 @@ def _removed_variable_lost_its_column(diffs, kinds_inside, ident):
     return True
 
 
+def _gained_refs_are_stale(H, diffs):
+    """Second half of the proof for the 'added' mechanism, from the snapshot taken at the exit itself: no gained
+    reference gene -> reaction-outside-the-model is an association that is alive on both sides (the reaction's rule
+    names the gene and the reaction holds that gene object).  What the mechanism leaves behind are stale leftovers: the
+    reaction object carried a gene object its own rule does not name (renamed while the reaction was outside the model)."""
+    import ast
+    import re
+
+    for d in diffs:
+        m = re.match(r"^gene (\S+)\.outside_live: (\(.*\)) -> (\(.*\))$", d)
+        if not m:
+            continue
+        try:
+            if set(ast.literal_eval(m.group(3))) - set(ast.literal_eval(m.group(2))):
+                return False
+        except Exception:
+            return False
+    return True
+
+
 def _only_outside_refs_changed(diffs):
     """Proves the mechanism: every difference is a model metabolite/gene whose list of
     reactions differs only by reactions that are *outside the model* (free reactions the
@@ -406,6 +426,8 @@ def _only_outside_refs_changed(diffs):
     for d in diffs:
         if d.startswith("xref(after) ") and "that is not in the model (dangling)" in d:
             continue
+        if re.match(r"^gene (\S+)\.outside_live: ", d):
+            continue  # refinement of outside_reactions, judged by _gained_refs_are_stale
         m = re.match(r"^(metabolite|gene) (\S+)\.(outside_reactions|reactions): (\(.*\)) -> (\(.*\))$", d)
         if not m:
             return None
